@@ -53,6 +53,11 @@ func c11GenMode(mode string) func(seed uint64, tier string) any {
 			if mode == "c11" && r.Chance(1, 3) {
 				cfg.Seeded = false
 			}
+			if r.Chance(1, 3) {
+				// a parse budget: parses of this VM are abandoned at an arbitrary depth (a crash point inside
+				// the parser); whatever the parser shares with other VMs must survive that
+				cfg.ParseLimit = uint64(r.Range(3, 600))
+			}
 			o := SwarmOpts(r, cfg)
 			o.MaxDepth = r.Range(1, 3)
 			o.BigNums = false
@@ -206,6 +211,14 @@ func c11Exec(raw json.RawMessage, res *RunResult) {
 		ResetGlobals(sc.GlobalSeed)
 		alone[i] = runScript(t.Cfg, t.Cmds)
 		res.Evals += len(t.Cmds)
+		if t.Cfg.ParseLimit > 0 {
+			res.Fault("parse_budget_configured")
+			for _, o := range alone[i] {
+				if strings.Contains(o.Err, "max number of expressions parsed") {
+					res.Fault("parse_abandoned")
+				}
+			}
+		}
 	}
 
 	// 2. all tasks under the scheduler; each builds its VM inside its own goroutine
